@@ -1,7 +1,11 @@
 #!/bin/sh
-# usage: tools_try_mutant.sh <patch.diff> <prop> [tier]   -- apply a seeded change to /repo, run the check, undo
+# usage: tools_try_mutant.sh <patch.diff> <prop> [tier]   -- apply a seeded change to /repo, run the check, undo.
+# The evidence file of the property is saved and restored (evidence must describe the unchanged tree).
 P=$1; PROP=$2; TIER=${3:-quick}
+cd /verif
+[ -f evidence/$PROP.json ] && cp evidence/$PROP.json /tmp/evidence_$PROP.keep
 git -C /repo apply "$P" 2>/dev/null || git -C /repo apply -3 "$P" || exit 9; git -C /repo reset -q
-cd /verif && timeout 3600 ./vcheck $PROP --tier $TIER; rc=$?
+timeout 3600 ./vcheck $PROP --tier $TIER; rc=$?
 git -C /repo reset -q; git -C /repo checkout -- .
+[ -f /tmp/evidence_$PROP.keep ] && mv /tmp/evidence_$PROP.keep evidence/$PROP.json
 echo "MUTANT $(basename $(dirname $P)) on $PROP/$TIER -> rc=$rc"
